@@ -423,7 +423,7 @@ def check_kani(ctx):
     for h, desc, to in KANI_HARNESSES:
         ob = ctx.ob(f'kani/{h}', 'Kani/CBMC over the compiled code: ' + desc, ['journal::entry::verif_kani::' + h])
         ob.reach = 1
-        r = ctx.kani(h, timeout_s=to)
+        r = ctx.run_kani(h, timeout_s=to)
         if r == 'success':
             ob.status = 'discharged'; ob.sample = dict(ctx.kani[-1])
         elif r == 'failed':
